@@ -22,11 +22,13 @@ Open == {[k |-> "open", fs |-> f, ep |-> e, form |-> fm, name |-> n] : f \in FSs
 Create == {[k |-> "create", fs |-> f, ep |-> e, form |-> fm, name |-> n, content |-> c] : f \in FSs, e \in Eps, fm \in Forms, n \in {"f1", "new", "d1/new"}, c \in {"empty", "small", "binary", "large"}}
 Simple == {[k |-> "mkdir", fs |-> "mem", ep |-> e, form |-> fm, name |-> n] : e \in Eps, fm \in Forms, n \in {"new", "d1/new"}}
           \cup {[k |-> "removeall", fs |-> "mem", ep |-> e, form |-> fm, name |-> n] : e \in Eps, fm \in Forms, n \in {"f1", "d1", "d1/f3"}}
-Copy == {[k |-> "copy", fs |-> "mem", ep |-> e, form |-> fm, name |-> n, dform |-> df, dest |-> d, norec |-> nr, noow |-> no] :
+Copy == {[k |-> "copy", fs |-> "mem", ep |-> e, form |-> fm, name |-> n, dform |-> df, dest |-> d, norec |-> nr, noow |-> no, nilopt |-> FALSE] :
            e \in Eps, fm \in Forms, n \in {"f1", "d1"}, df \in Forms, d \in {"new", "f2"}, nr \in BOOLEAN, no \in BOOLEAN}
-Move == {[k |-> "move", fs |-> "mem", ep |-> e, form |-> fm, name |-> n, dform |-> df, dest |-> d, noow |-> no] :
+Move == {[k |-> "move", fs |-> "mem", ep |-> e, form |-> fm, name |-> n, dform |-> df, dest |-> d, noow |-> no, nilopt |-> FALSE] :
            e \in Eps, fm \in Forms, n \in {"f1", "d1"}, df \in Forms, d \in {"new", "f2"}, no \in BOOLEAN}
-All == Stat \cup ReadDir \cup ReadDirHuge \cup Open \cup Create \cup Simple \cup Copy \cup Move
+\* a nil options value means the defaults (recursive, overwrite)
+NilOpts == {[c EXCEPT !.nilopt = TRUE] : c \in {x \in Copy : ~x.norec /\ ~x.noow} \cup {x \in Move : ~x.noow}}
+All == NilOpts \cup Stat \cup ReadDir \cup ReadDirHuge \cup Open \cup Create \cup Simple \cup Copy \cup Move
 \* the resolution rule as data: segments of the endpoint path
 EpSegs(e) == IF e \in {"none", "slash"} THEN << >> ELSE IF e \in {"p", "ptrail"} THEN <<"p">> ELSE <<"p", "q">>
 ASSUME \A e \in Eps : Len(EpSegs(e)) \in 0..2
